@@ -9,6 +9,7 @@ import (
 	"fmt"
 	"io"
 	"os"
+	"strings"
 	"sync"
 	"testing"
 
@@ -606,6 +607,26 @@ func TestC01_R_DeepNarrowFile(t *testing.T) {
 // Independent calls running in parallel goroutines (each with its own inputs, link system and store) must not influence
 // one another: builders and readers are functions of their arguments. (C17 is about sharing ONE node; this is about
 // sharing nothing but the package.)
+// aFailedBuild runs one small file build and one small directory build into stores that refuse a write (at open, while
+// writing, at commit, in turn): the concurrent-build checks interleave such failures with their builds, because what a
+// failed build leaves behind (a pooled object returned twice, a cache entry) only shows when other builds overlap later.
+func aFailedBuild(r int) {
+	st := NewStore()
+	switch r % 3 {
+	case 0:
+		st.FailOpenAt = 1 + r%2
+	case 1:
+		st.FailWriteAt = 1 + r%2
+	default:
+		st.FailCommitAt = 1 + r%2
+	}
+	// (at whatever link width the test set: DefaultLinksPerBlock is a package variable and must not be written here)
+	_, _, _ = builder.BuildUnixFSFile(bytes.NewReader(lcgBytes(400, byte(r), 0)), "size-1", st.LinkSystem())
+	st2 := NewStore()
+	st2.FailCommitAt = 1
+	_, _, _ = buildSharded(st2, []entrySpec{entryFor("a", r), entryFor("b", r), entryFor("c", r)}, 8)
+}
+
 // yieldingStore is a fresh store that gives up the processor at every storage call on odd rounds (see Store.Yield).
 func yieldingStore(r int) *Store {
 	st := NewStore()
@@ -645,6 +666,9 @@ func TestC02_R_ConcurrentIndependentBuilds(t *testing.T) {
 				}
 			}()
 			for r := 0; r < rounds; r++ {
+				if r%5 == 2 {
+					aFailedBuild(r + g)
+				}
 				st := yieldingStore(r)
 				c, _, err := buildSharded(st, jobs[g].es, jobs[g].fanout)
 				if err != nil || c != jobs[g].want {
@@ -699,6 +723,9 @@ func TestC07_R_ConcurrentIndependentBuilds(t *testing.T) {
 		go func(g int) {
 			defer wg.Done()
 			for r := 0; r < rounds; r++ {
+				if r%5 == 2 {
+					aFailedBuild(r + g)
+				}
 				ck := []string{"", "default", "size-262144"}[r%3]
 				c, _, err := buildFile(yieldingStore(r/3), jobs[g].data, ck, 174)
 				if err != nil || c != jobs[g].want {
@@ -849,10 +876,16 @@ func TestC04_R_BulkReads(t *testing.T) {
 
 // C08: directories of more than 2^16 entries equal the reference HAMT's root and size.
 func TestC08_R_LargeDirectories(t *testing.T) {
-	for _, c := range []struct{ n, fanout int }{{65536, 256}, {65537, 256}, {70001, 256}, {66000, 1024}} {
+	for _, c := range []struct{ n, fanout, nameLen int }{{65536, 256, 0}, {65537, 256, 0}, {70001, 256, 0}, {66000, 1024, 0},
+		// long names in a wide shard: single shard blocks of well over 1 MiB (the reference writes them as they come)
+		{600, 1024, 3500}, {1500, 1024, 4000}, {300, 512, 9000}} {
 		es := make([]entrySpec, c.n)
 		for i := range es {
-			es[i] = entryForKind(fmt.Sprintf("file-%06d.dat", i), 0, 0)
+			name := fmt.Sprintf("file-%06d.dat", i)
+			if c.nameLen > 0 {
+				name += strings.Repeat("n", c.nameLen-len(name))
+			}
+			es[i] = entryForKind(name, 0, 0)
 		}
 		got, gsz, err := buildSharded(NewStore(), es, c.fanout)
 		if err != nil {
@@ -937,6 +970,9 @@ func TestC10_R_ConcurrentIndependentBuilds(t *testing.T) {
 				}
 			}()
 			for r := 0; r < rounds; r++ {
+				if r%5 == 2 {
+					aFailedBuild(r + g)
+				}
 				c, sz, err := buildShardedHasher(yieldingStore(r), jobs[g].es, 16, jobs[g].hasher)
 				if err != nil || c != jobs[g].want || sz != jobs[g].wsz {
 					errs <- fmt.Sprintf("goroutine %d round %d: sharded build with name hash 0x%x returned %s/%d (err %v), alone %s/%d", g, r, jobs[g].hasher, c, sz, err, jobs[g].want, jobs[g].wsz)
@@ -981,6 +1017,9 @@ func TestC11_R_ConcurrentBuildsThroughOneLinkSystem(t *testing.T) {
 		go func(g int) {
 			defer wg.Done()
 			for r := 0; r < rounds; r++ {
+				if r%9 == 4 {
+					aFailedBuild(r + g)
+				}
 				var l datamodel.Link
 				var sz uint64
 				var err error
@@ -1000,6 +1039,164 @@ func TestC11_R_ConcurrentBuildsThroughOneLinkSystem(t *testing.T) {
 	for g := range jobs {
 		if _, err := verifySizes(st, jobs[g].want, nil); err != nil {
 			t.Fatalf("C11: sizes written by concurrent builds through one shared link system: %v", err)
+		}
+	}
+}
+
+// oldStyleTree hand-assembles a balanced file of dag-pb nodes without BlockSizes, FileSize or Tsize hints above the leaves
+// (what early writers stored): `depth` levels of interior nodes with `width` links each over leaves of leafLen bytes.
+func oldStyleTree(width, depth, leafLen int, seed *int) (*mnode, []byte) {
+	if depth == 0 {
+		*seed++
+		c := lcgBytes(leafLen, byte(*seed), 0)
+		return &mnode{HasData: true, UFS: &ufsFields{Type: 2, HasData: true, Data: c, FileSize: u64p(uint64(len(c)))}}, c
+	}
+	m := &mnode{HasData: true, UFS: &ufsFields{Type: 2}}
+	var data []byte
+	for i := 0; i < width; i++ {
+		k, d := oldStyleTree(width, depth-1, leafLen, seed)
+		m.Links = append(m.Links, mlink{Child: k})
+		data = append(data, d...)
+	}
+	return m, data
+}
+
+// Thousands of operations on ONE node object: 2 readers of one file node doing Seek+Read (every 97th an end-relative seek)
+// for 8000 / 400 steps - a counter, cache or depth that creeps up with every use of the shared node only shows after
+// thousands of uses. Old-style files (children have to be opened to be measured, at width 3 over three levels and at
+// width 174), a builder-written file, and a file opened through a reifying link system.
+func TestC04_R_LongHistories(t *testing.T) {
+	type cfg struct {
+		desc  string
+		st    *Store
+		root  cid.Cid
+		data  []byte
+		how   string
+		steps int
+	}
+	var cfgs []cfg
+	seed := 0
+	for _, c := range []struct{ w, d, leaf, steps int }{{3, 3, 5, 8000}, {174, 1, 3, 400}} {
+		var m *mnode
+		var data []byte
+		if c.w == 174 {
+			// the root's 174 children are link nodes over two leaves each
+			m = &mnode{HasData: true, UFS: &ufsFields{Type: 2}}
+			for i := 0; i < 174; i++ {
+				k, d := oldStyleTree(2, 1, c.leaf, &seed)
+				m.Links = append(m.Links, mlink{Child: k})
+				data = append(data, d...)
+			}
+		} else {
+			m, data = oldStyleTree(c.w, c.d, c.leaf, &seed)
+		}
+		st := NewStore()
+		root, err := m.store(st, st.LinkSystem())
+		if err != nil {
+			t.Fatal(err)
+		}
+		cfgs = append(cfgs, cfg{fmt.Sprintf("old-style file, width %d, %d bytes", c.w, len(data)), st, root, data, "Reify", c.steps})
+	}
+	{
+		data := lcgBytes(700, 77, 0)
+		st := NewStore()
+		root, _, err := buildFile(st, data, "size-7", 3)
+		if err != nil {
+			t.Fatal(err)
+		}
+		cfgs = append(cfgs, cfg{"builder-written file, width 3, 700 bytes", st, root, data, "Reify", 8000})
+		cfgs = append(cfgs, cfg{"builder-written file, width 3, 700 bytes", st, root, data, "Load+NodeReifier", 300})
+	}
+	for _, c := range cfgs {
+		node, err := c01Open(c.st, c.root, c.how)
+		if err != nil {
+			t.Fatalf("C04 long history [%s]: open: %v", c.desc, err)
+		}
+		lb := node.(datamodel.LargeBytesNode)
+		var rs [2]io.ReadSeeker
+		for i := range rs {
+			if rs[i], err = lb.AsLargeBytes(); err != nil {
+				t.Fatal(err)
+			}
+		}
+		n := int64(len(c.data))
+		x := uint32(12345)
+		buf := make([]byte, 16)
+		for step := 0; step < c.steps; step++ {
+			x = x*1664525 + 1013904223
+			r := rs[(x>>8)&1]
+			off := int64(x>>10) % (n + 1)
+			var pos int64
+			if step%97 == 96 {
+				pos, err = r.Seek(off-n, io.SeekEnd)
+			} else {
+				pos, err = r.Seek(off, io.SeekStart)
+			}
+			if err != nil || pos != off {
+				t.Fatalf("C04 long history [%s via %s]: step %d: seek to %d = (%d, %v)", c.desc, c.how, step, off, pos, err)
+			}
+			k := int(x>>4)%len(buf) + 1
+			got, err := io.ReadFull(r, buf[:k])
+			want := c.data[off:min(n, off+int64(k))]
+			if !bytes.Equal(buf[:got], want) || (err != nil && err != io.EOF && err != io.ErrUnexpectedEOF) {
+				t.Fatalf("C04 long history [%s via %s]: step %d: %d bytes at %d read as %x (err %v), want %x", c.desc, c.how, step, k, off, buf[:got], err, want)
+			}
+		}
+	}
+}
+
+// Tens of thousands of lookups (through all entry points), lengths and iterations on ONE sharded-directory node.
+func TestC02_R_LongLookupHistory(t *testing.T) {
+	var es []entrySpec
+	want := map[string]cid.Cid{}
+	for i := 0; i < 700; i++ {
+		e := entryFor(fmt.Sprintf("entry-%04d", i), 3)
+		es = append(es, e)
+		want[e.Name] = e.Cid
+	}
+	st := NewStore()
+	root, _, err := buildSharded(st, es, 8)
+	if err != nil {
+		t.Fatal(err)
+	}
+	dir, err := loadReified(st.LinkSystem(), root, "unixfs")
+	if err != nil {
+		t.Fatal(err)
+	}
+	x := uint32(99)
+	for step := 0; step < 40000; step++ {
+		x = x*1664525 + 1013904223
+		name := es[int(x>>9)%len(es)].Name
+		if step%11 == 3 {
+			name += "-absent"
+		}
+		var v datamodel.Node
+		var err error
+		switch (x >> 5) % 3 {
+		case 0:
+			v, err = dir.LookupByString(name)
+		case 1:
+			v, err = dir.LookupBySegment(datamodel.PathSegmentOfString(name))
+		default:
+			v, err = dir.LookupByNode(basicnode.NewString(name))
+		}
+		if c, ok := want[name]; ok {
+			if err != nil {
+				t.Fatalf("C02 long history: lookup #%d of member %q: %v", step, name, err)
+			}
+			if l, lerr := v.AsLink(); lerr != nil || cidOf(l) != c {
+				t.Fatalf("C02 long history: lookup #%d of member %q returned %v (%v), want %s", step, name, l, lerr, c)
+			}
+		} else if err == nil {
+			t.Fatalf("C02 long history: lookup #%d of non-member %q succeeded", step, name)
+		}
+		if step%4000 == 1999 {
+			if dir.Length() != int64(len(es)) {
+				t.Fatalf("C02 long history: Length() = %d after %d lookups, want %d", dir.Length(), step, len(es))
+			}
+			if err := checkDirIsMapOpt(dir, want, []string{"nope"}, true); err != nil {
+				t.Fatalf("C02 long history: after %d lookups: %v", step, err)
+			}
 		}
 	}
 }
